@@ -9,13 +9,14 @@ finite history of programs over the primitives (`create_node`, `Int`, `Real`, `S
 All theorems below are for every reachable state: no bound on the history.
 
 What the model does NOT contain (so no theorem below speaks about it):
-* the type check inside `create_node` (formula.py:99,105: Python re-checks the node on both
-  paths and raises `PysmtTypeError` for an ill-sorted node, which stays in the table).  The
-  model is `create_node` on well-sorted requests; its reachable states are a superset of
-  Python's, which is sound for the invariants (`table_inj`, `table_fun`, …), but "the
-  program succeeds" in `create_same_iff_struct` / `recreate_existing` is a statement about
-  the unchecked model: read it as "whenever both calls return".  K never issues ill-sorted
-  calls (C03 covers the rejection, C15 the node left behind).
+* the type checker itself: `create_node` re-checks the node on BOTH paths (formula.py:99,105),
+  raises `PysmtTypeError` for a rejected node and leaves it in the table.  The model has this
+  control flow with the verdict as a parameter of the manager (`Mgr.tc : Content → Bool`,
+  never changed by any program); every theorem below holds for EVERY verdict function, and
+  statements that need a call to return either assume it returned or assume the verdict for
+  the contents involved.  Which contents the real checker rejects is C03's subject; K issues
+  ill-sorted one-node calls and compares the raised error, the node left in the table, the
+  consumed id and the repeated failure on the "found" path.
 * object identity across managers: node ids are per-manager name spaces, so "the copy shares
   no formula object with the source" holds by this modelling choice and is *not* a theorem.
   It is an observation of K/S on the real objects (`normalize/shared-node`,
@@ -49,27 +50,35 @@ theorem id_eq_iff_struct_eq {s : Mgr} (h : Reachable s) {i j : Nid}
   (struct_eq_iff h.inv i0 i1 j0 j1).symm
 
 /-- Two construction histories: build tree `t₁` bottom-up, run an arbitrary program `p`
-    (any unrelated constructions, also failing ones), build `t₂`.  The ids returned are equal
-    iff the trees are equal.  ("Both succeed" holds in the model, which has no type check: for
-    Python read "whenever both return"; see the header.) -/
+    (any unrelated constructions, also failing ones), build `t₂`.  Whenever both builds return
+    a node — whatever the type checker of the manager accepts or rejects on the way — the ids
+    are equal iff the trees are equal. -/
 theorem create_same_iff_struct {α : Type} {s₀ : Mgr} (h₀ : Reachable s₀) (t₁ t₂ : Term)
-    (w₁ : t₁.WF) (w₂ : t₂.WF) (p : Prog α) :
-    ∃ i₁ s₁ i₂ s₃, (buildT t₁).run s₀ = (.ok i₁, s₁) ∧ (buildT t₂).run (p.run s₁).2 = (.ok i₂, s₃) ∧
-      (i₁ = i₂ ↔ t₁ = t₂) :=
-  build_same_iff h₀ t₁ t₂ w₁ w₂ p
+    (w₁ : t₁.WF) (w₂ : t₂.WF) (p : Prog α) {i₁ i₂ : Nid} {s₁ s₃ : Mgr}
+    (hr₁ : (buildT t₁).run s₀ = (.ok i₁, s₁)) (hr₂ : (buildT t₂).run (p.run s₁).2 = (.ok i₂, s₃)) :
+    i₁ = i₂ ↔ t₁ = t₂ :=
+  build_same_iff h₀ t₁ t₂ w₁ w₂ p hr₁ hr₂
+
+/-- … and both builds do return when the type checker accepts what it is asked (`AcceptsAll`:
+    the well-sorted reading; every manager of the K histories is of this kind). -/
+theorem create_succeeds_when_accepted {α : Type} {s₀ : Mgr} (h₀ : Reachable s₀) (ha : AcceptsAll s₀)
+    (t₁ t₂ : Term) (w₁ : t₁.WF) (w₂ : t₂.WF) (p : Prog α) :
+    ∃ i₁ s₁ i₂ s₃, (buildT t₁).run s₀ = (.ok i₁, s₁) ∧ (buildT t₂).run (p.run s₁).2 = (.ok i₂, s₃) :=
+  build_succeeds h₀ ha t₁ t₂ w₁ w₂ p
 
 /-- `Term.WF` is what every existing node satisfies; re-creating the tree of an existing node
-    returns that node (no duplicate can be made). -/
+    returns that node whenever it returns (no duplicate can be made). -/
 theorem recreate_existing {s : Mgr} (h : Reachable s) {i : Nid} (i0 : 0 < i) (i1 : i < s.nextId) :
-    (s.struct i).WF ∧ ∃ s', (buildT (s.struct i)).run s = (.ok i, s') :=
-  ⟨struct_WF h.inv (i + 1) i (by omega) i0 i1, rebuild_raw_id h.inv i0 i1⟩
+    (s.struct i).WF ∧ ∀ j s', (buildT (s.struct i)).run s = (.ok j, s') → j = i :=
+  ⟨struct_WF h.inv (i + 1) i (by omega) i0 i1, fun _ _ hr => rebuild_raw_id h.inv i0 i1 hr⟩
 
 /-- Every spelling of a Real constant (`int`, `float`, `Fraction`, pair) that denotes `q`
-    returns the same node, in any order, with anything in between. -/
+    returns the same node, in any order, with anything in between (`htc`: the type checker
+    accepts the Real constant `q`, as `walk_identity_real` does for every value). -/
 theorem const_spelling {α : Type} {s : Mgr} (h : Reachable s) {v₁ v₂ : PyNum} {q : Rat}
-    (h₁ : v₁.realValue = .ok q) (h₂ : v₂.realValue = .ok q) (p : Prog α) :
+    (h₁ : v₁.realValue = .ok q) (h₂ : v₂.realValue = .ok q) (htc : s.tc (realC q) = true) (p : Prog α) :
     ∃ i s₁ s₃, (mkReal v₁).run s = (.ok i, s₁) ∧ (mkReal v₂).run (p.run s₁).2 = (.ok i, s₃) :=
-  real_spelling h.inv h₁ h₂ p
+  real_spelling h.inv h₁ h₂ htc p
 
 /-- `BV("#b…")`, `BV("01…")` and `SBV(n, w)` are the same calls as `BV(int, width)`. -/
 theorem const_spelling_bv (cs : List Char) {n : Nat} (h : parseBin cs = some n) :
@@ -217,23 +226,21 @@ theorem equalsOrIff_normalisation {α : Type} {s s1 s3 : Mgr} (h : Reachable s) 
 
 /-! ### everything the public constructors build is normal -/
 
-/-- PARTIAL public-constructor invariant.  `PubReach addr s`: `s` is reached from a fresh
-    manager by calls of the constructors listed in `IsPub` only.  Then `s` is reachable, and
-    the hypothesis `AllNormal` of `rebuild_id` / `normalize_copy_partial` holds for *every*
-    node (`true`), and for copies into another manager (`false`) whenever the sub-DAG contains
-    no array value.
-    Covered (`IsPub`): `Symbol`, `Real`, `Int`, `String`, `Bool`, `And/Or/Plus/Times`,
-    `StrConcat`, `Not`, `Xor`, `NotEquals`, `EqualsOrIff`, `Function`, every constructor that is
-    one plain `create_node` (`Implies`, `Iff`, `Minus`, `Equals`, `LE/LT/GE/GT`, `Ite`, the
-    bit-vector relations, the string operators, `Select`, `Store`, `BVToNatural`), `BV`,
-    `BVNot/BVNeg`, the binary and n-ary bit-vector operators, shifts (node / int amount),
-    rotations, extensions, binary `BVConcat`, `BVExtract`, `BVComp`, `_Algebraic`.
-    NOT yet covered (so histories using them are outside `PubReach`): `FreshSymbol`,
-    `ForAll/Exists`, `ToReal`, `Div`, `Pow`, `Min/Max/MinBV/MaxBV`, `AtMostOne/ExactlyOne/
-    AllDifferent`, n-ary `BVConcat`, `BVNand/BVNor/BVXnor`, `BVSMod`, `BVRepeat`, `SBV`, `Array`,
-    and `normalize` itself as a step.  The per-constructor lemmas have the same shape
-    (`PubOK`, closed under `bind`); they are missing, not false. -/
-theorem pub_allNormal_partial {addr : Nid → Nat} {s : Mgr} (h : PubReach addr s) (i : Nid) :
+/-- Public-constructor invariant.  `PubReach addr s`: `s` is reached from a fresh manager by
+    calls of the public constructors only — `IsPubAt`: every constructor of the model
+    (`Symbol`, `FreshSymbol`, the constants incl. every Python spelling of `BV`/`SBV` widths,
+    `And/Or/Plus/Times`, `StrConcat`, `Not`, `Xor`, `NotEquals`, `EqualsOrIff`, `Function`, all
+    plain one-node constructors, `ToReal`, `Div`, `Pow`, `Min/Max/MinBV/MaxBV`,
+    `AtMostOne/ExactlyOne/AllDifferent`, every bit-vector constructor incl. `BVSMod`,
+    `BVRepeat`, n-ary `BVConcat`, `_Algebraic`, `TRUE/FALSE`, rejected calls), `ForAll/Exists`
+    over symbols, and `Array` over a dict (`addr` = `id()`, distinct index objects).
+    Then `s` is reachable, and the hypothesis `AllNormal` of `rebuild_id` /
+    `normalize_copy_partial` holds for *every* node (`true`), and for copies into another
+    manager (`false`) whenever the sub-DAG contains no array value: for everything a user can
+    build with the constructors the two theorems are unconditional.
+    Limit: a manager that also *received* `normalize` copies (normalize as a step of its own
+    history) is not `PubReach`; for such a manager `AllNormal` must still be supplied. -/
+theorem pub_allNormal {addr : Nid → Nat} {s : Mgr} (h : PubReach addr s) (i : Nid) :
     Reachable s ∧ AllNormal s addr true i ∧
     ((∀ c k, (c, k) ∈ s.formulae → InDag s i k → c.nodeType ≠ NT.ARRAY_VALUE) → AllNormal s addr false i) :=
   ⟨h.spec.1, fun c k hc _ => h.spec.2 c k hc,
@@ -338,8 +345,8 @@ example : ((do let x ← mkSymbol "x" .bool; let y ← mkSymbol "y" .bool
 example (addr : Nid → Nat) (same : Bool) : AllNormal ((mkAnd [1, 2]).run Mgr.init).2 addr same 3 := by
   intro c k hc _
   have : c = trueC ∨ c = falseC ∨ c = ⟨NT.AND, [1, 2], .none⟩ := by
-    simp [mkAnd, mkNary, create, Prog.run, Prim.exec, createNode, Mgr.init, Content.ids, Payload.ids,
-      Mgr.validId, assoc, trueC, falseC] at hc
+    simp [mkAnd, mkNary, create, Prog.run, Prim.exec, createNode, createNodeU, Mgr.init, Mgr.initWith, Content.ids,
+      Payload.ids, Mgr.validId, assoc, trueC, falseC] at hc
     rcases hc with ⟨rfl, _⟩ | ⟨rfl, _⟩ | ⟨rfl, _⟩ <;> simp [trueC, falseC]
   rcases this with rfl | rfl | rfl
   · exact .base (.bool true)
@@ -383,7 +390,19 @@ example : bvSignedValue 8 4 = -8 ∧ bvSignedValue 1 1 = -1 ∧ bvSignedValue 7 
 /-- `PubReach` is inhabited by a non-trivial history: `x : BV8`, `BVNot(x)`, `Not(Not(b))` -/
 example (addr : Nid → Nat) :
     PubReach addr ((mkBVUn NT.BV_NOT 3).run ((mkSymbol "x" (.bv 8)).run Mgr.init).2).2 :=
-  .step _ (.bvUn (by simp [bvUnNTs]) 3) (.step _ (.symbol "x" (.bv 8)) .init)
+  .step _ (.pub (.bvUn (by simp [bvUnNTs]) 3)) (.step _ (.pub (.symbol "x" (.bv 8))) (.init _))
+
+/-- the fresh manager of the K histories accepts everything it is asked -/
+example : AcceptsAll Mgr.init := fun _ => rfl
+
+/-- a type checker that rejects `AND` nodes: `And(TRUE, FALSE)` raises, the node stays in the
+    table and keeps its id (3), asking again finds it and raises again -/
+example :
+    let s := Mgr.initWith (fun c => c.nodeType != NT.AND)
+    let r1 := (mkAnd [1, 2]).run s
+    let r2 := (mkAnd [1, 2]).run r1.2
+    r1.1 = .error .typeError ∧ r1.2.nextId = 4 ∧ r1.2.content? 3 = some ⟨NT.AND, [1, 2], .none⟩ ∧
+    r2.1 = .error .typeError ∧ r2.2.nextId = 4 := by decide +kernel
 
 /-- sorted assignments exist: two distinct keys in either address order -/
 example : SortedBy (fun i => 10 - i) (arrayAssignments (fun i => 10 - i) 9 [(3, 7), (4, 8), (5, 9)]) ∧
